@@ -10,7 +10,7 @@
   which hold initially, are re-established by every collection (`C03_collect_resets`,
   `C03_collect_wf`) and are preserved by every driver operation (`C03_script_valid`).
 -/
-import RsjProofs.GcScript
+import RsjProofs.GcInvisible
 import RsjModel.GcTraceTable
 namespace Rsj.Gc
 
@@ -76,6 +76,33 @@ theorem C03_drop_all_empties {G : Heap} (hG : WF G) (hc : Clean G)
 theorem C03_script_valid (ops : List Op) :
     ∃ out, runScript ops { heap := [], held := [] } [] = some out ∧ out.getLast? = some "end#0" :=
   script_valid ops
+
+/-- **C03 gc_invisible (for clients of the collector).** Take any sequence of client operations
+    (allocate with a handle or a view, take/drop handles and views, add/delete in-heap handles)
+    and insert collections at ANY positions (after every step, with any period, at random):
+    the answers to all client operations — which nodes can be accessed, whether an edge exists,
+    the final object count — are exactly those of the run that never collects.
+    `runQuiet` = `runScript` without recording the `live[..]` answers of the `gc` operations.
+    (The client here is the scripted mutator, which like the evaluator touches heap objects only
+    through handles it holds or finds in objects it can access. For the full Jsonnet evaluator
+    the same statement — value, error and stack trace independent of the schedule — is not
+    proved in Lean; it is validated by the schedule sweep of `checks/c03.py`, part (c).) -/
+theorem C03_gc_invisible_script (ops : List Op) :
+    runQuiet ops { heap := [], held := [] } [] =
+      runScript (ops.filter (fun op => !op.isGc)) { heap := [], held := [] } [] :=
+  gc_invisible_script ops
+
+/-- non-vacuity: a script whose collections do reclaim objects (the cycle 1 ⇄ 2) -/
+example :
+    runQuiet [.alloc, .alloc, .alloc, .edge (some 1) (some 2), .edge (some 2) (some 1), .gc,
+              .dropHandle (some 1), .dropHandle (some 2), .gc, .handle (some 1), .edge (some 0) (some 0), .gc]
+      { heap := [], held := [] } []
+      = some ["n0", "n1", "n2", "ok", "ok", "ok", "ok", "skip", "ok", "end#0"]
+    ∧ runScript [.alloc, .alloc, .alloc, .edge (some 1) (some 2), .edge (some 2) (some 1), .gc,
+              .dropHandle (some 1), .dropHandle (some 2), .gc]
+      { heap := [], held := [] } []
+      = some ["n0", "n1", "n2", "ok", "ok", "live[0,1,2]#3", "ok", "ok", "live[0]#1", "end#0"] := by
+  decide
 
 /-- **Generated obligation (from `program/data.rs`).** For every struct / enum variant that
     implements `GcTrace`, the fields visited by `trace` (with multiplicity) are exactly the
@@ -151,5 +178,7 @@ open Rsj.Gc in
 #print axioms C03_drop_all_empties
 open Rsj.Gc in
 #print axioms C03_script_valid
+open Rsj.Gc in
+#print axioms C03_gc_invisible_script
 open Rsj.Gc in
 #print axioms C03_trace_covers_handles
